@@ -146,7 +146,7 @@ class SelectorMap:
     node = self._selector_tree
 
     for component in reversed(selector_components):
-      if component not in node:
+      if component == _TERMINAL_KEY or component not in node:
         return []
       node = node[component]
 
